@@ -1,7 +1,7 @@
 From Coq Require Import Extraction ExtrOcamlBasic.
-From PV Require Import Base.Bytes Base.Outcome Base.DrvBase Model.Push Model.Sighash Spec.SighashCore Model.SighashBridge.
+From PV Require Import Base.Bytes Base.Outcome Base.DrvBase Model.Push Model.Sighash Spec.SighashCore Model.SighashBridge Model.SighashHistory.
 Extraction "../ml/c04.ml" drv_base delete_subscript delete_signature sighash_f_script legacy_presig
   signature_hash signature_for_hash_type_segwit segwit_preimage
   core_get_op core_decodable core_find_and_delete core_push core_script_code_base ser_script_code
   core_signature_hash_legacy core_signature_hash_old bip143_preimage forkid_preimage uint256_one
-  to_core plain_push.
+  to_core plain_push run.
